@@ -285,10 +285,74 @@ def wire_host(out):
     return n
 
 
+def header_reuse(out):
+    """One header container (list of bytes pairs with and without Host, list of str pairs, mapping) given to three POSTs with bodies of
+    different lengths: every transmission carries the Content-Length of its own body (a default header synthesised for one request
+    must not survive in the caller's container), and the container is unchanged afterwards."""
+    import copy
+    from .. import scen
+    from ..engine import Chooser
+    from ..seqworld import SeqWorld
+    forms = {
+        "bytes-pairs-host": lambda: [(b"Host", b"a.example"), (b"X-K", b"v")],
+        "bytes-pairs": lambda: [(b"X-K", b"v")],
+        "str-pairs-host": lambda: [("Host", "a.example"), ("X-K", "v")],
+        "mapping": lambda: {"Host": "a.example", "X-K": "v"},
+        "empty-list": lambda: [],
+    }
+    bodies = [b"12345", b"1234567890abc", b""]
+    n = 0
+    for (fname, mk), ct, variant in itertools.product(forms.items(), ["h11", "h2pk", "fwd"], ["sync", "async"]):
+        n += 1
+        topo = scen.Topology(scen.CONN_TYPES[ct])
+        w = SeqWorld(Chooser([]), topo.router, variant=variant)
+        w.env.fp = None
+        pool = scen.make_pool(ct, w.backend, variant)
+        hdrs = mk()
+        before = copy.deepcopy(hdrs)
+        res = []
+        url = "http://a.example/t/tok"
+        if variant == "sync":
+            def prog():
+                for b_ in bodies:
+                    try:
+                        r = pool.request("POST", url, headers=hdrs, content=b_)
+                        res.append(("ok", r.status))
+                    except Exception as e:
+                        res.append(("exc", f"{type(e).__name__}: {e}"))
+                pool.close()
+            w.run(sync_fn=prog)
+        else:
+            async def aprog():
+                for b_ in bodies:
+                    try:
+                        r = await pool.request("POST", url, headers=hdrs, content=b_)
+                        res.append(("ok", r.status))
+                    except Exception as e:
+                        res.append(("exc", f"{type(e).__name__}: {e}"))
+                await pool.aclose()
+            w.run(async_fn=aprog)
+        sig = {"harness": "header-reuse", "form": fname, "proto": ct}
+        if hdrs != before:
+            out.append({"oracle": "C19.caller-headers-mutated", "message": f"the caller's header container ({fname}) was {before} and is {hdrs} after three requests over {ct} ({variant})",
+                        "signature": dict(sig, kind="caller-headers-mutated"), "case": {"reuse": True}})
+        if ct == "h2pk":
+            seen = [(dict(c.streams[sid].headers).get(b"content-length"), bytes(c.streams[sid].body)) for c in topo.all_h2_conns() for sid in c.order]
+        else:
+            seen = [(next((v for k, v in r.headers if k.lower() == b"content-length"), None), bytes(r.body)) for c in topo.all_h1_conns() for r in c.parser.requests]
+        want = [(str(len(b_)).encode(), b_) for b_ in bodies]
+        if res != [("ok", 200)] * 3 or seen != want:
+            out.append({"oracle": "C19.content-length", "message": f"three POSTs sharing one header container ({fname}) over {ct} ({variant}): results {res}; the server saw (Content-Length, body) {seen}, expected {want}",
+                        "signature": dict(sig, kind="content-length"), "case": {"reuse": True}})
+    return n
+
+
 def replay_case(case):
     out = []
     if "wire" in case:
         wire_host(out)
+    elif "reuse" in case:
+        header_reuse(out)
     elif "url" in case:
         u = case["url"]
         m = re.match(r"^([a-z]+)://([^/@]*@)?(\[[^\]]*\]|[^:/?#]*)(:(\d*))?([^?#]*)(\?([^#]*))?(#(.*))?$", u)
@@ -316,6 +380,7 @@ def check(tier="quick", seed=0, workers=None, only=None):
     n_pairs = origin_pairs(out)
     n_misc = misc_laws(out)
     n_wire = wire_host(out)
+    n_wire += header_reuse(out)
     cov = {
         "evaluations": n + n_pairs + n_misc + n_wire,
         "distinct_nontrivial": len(classes),
